@@ -743,6 +743,16 @@ impl Pool {
         mem_texts.push(add!(capture(false, &b0, &Wf::Flat(1.0), "r[1]")));
         mem_texts.push(add!(raw_capture(false, &a1, 1.0, "s[0]")));
         mem_texts.push(add!(pulse(false, &a2, &Wf::MemDuration)));
+        // instructions that READ and CAPTURE the same region (waveform parameter / raw-capture
+        // duration referencing the capture target's region): the shape where a read and a capture
+        // of one instruction meet in one dependency queue
+        mem_texts.push(add!(capture(false, &b0, &Wf::MemDuration, "r[1]")));
+        mem_texts.push(add!(spec(
+            "RAW-CAPTURE 1 \"a\" s[1] s[0]".to_string(),
+            DurModel::Unknown,
+            Kind::RawCapture,
+        )));
+        add!(capture(true, &a0, &Wf::MemDuration, "r[0]"));
         // more classical instructions for random programs
         for text in [
             "MOVE t[0] 1",
